@@ -60,6 +60,20 @@ pub fn alt_rule(extended: bool) -> BoxedStrategy<Rule> {
         })
         .boxed()
 }
+/// daylight time that ends the moment it starts, or one second / minute / hour / two hours later: same rule
+/// day, end time = start time + the saving, each read on its own clock. Used for the
+/// instant direction only (C05 posix_rules).
+pub fn short_dst_rule() -> BoxedStrategy<Rule> {
+    (alt_rule(false), 0usize..6, 3600i32..=43_200).prop_filter_map("positive saving", |(r, k, st)| {
+        if let Rule::Alt { std, dst, start, .. } = r {
+            let delta = dst.utoff - std.utoff;
+            if delta <= 0 { return None; }
+            let extra = [0, 0, 1, 60, 3600, 7200][k];
+            let r = Rule::Alt { std, dst, start, start_time: st, end: start, end_time: st + delta + extra };
+            if r.edges_inside_year() { Some(r) } else { None }
+        } else { None }
+    }).boxed()
+}
 pub fn fixed_rule() -> BoxedStrategy<Rule> {
     (rule_offset(), rule_name()).prop_map(|(utoff, abbr)| Rule::Fixed(ZType { utoff, isdst: false, abbr })).boxed()
 }
